@@ -39,6 +39,16 @@
            less); prospective mode starts every step from the user's screen (`C19_prospective_launch_screen`).
    + the run ends: `C19_simulation_terminates_all_revealed` (concrete reveal-one-plate-per-step instance).
    + regression of the repaired defect: `C19_examineOld_counterexample`.
+   + the directory the script NAMES (`Props/C19Regress.lean`): `C19_named_directory` (what is named on every reachable
+     directory), `C19_remove_named_resumes` (removing exactly it keeps every completed step and resumes at the same step),
+     `C19_named_is_what_is_removed` (it is what `planStep` / the resume theorems remove), `C19_advice_names_plate_dir` (the path
+     expression of the message, generated from the script).
+   Regression (not a clause): `C19_S7_naming_iteration_dir_counterexample` -- S7-C19, message names `iter_K/`: a completed
+     plate_0 is removed and (0,0) is executed twice (batch size 2, interrupted in plate_1).
+   Regression (not a clause): `C19_S6_lexicographic_scan_counterexample` -- S6-C19, `sorted` without the numeric key: with
+     `iter_10` the scan answers the completed step (10,0).
+   Regression (not a clause): `C19_S5_process_counter_counterexample` -- S5-C19, in-process step counter: after an interruption
+     the prospective invocation runs on into the next iteration.
   harness-only: that the model IS the script (glob/os/shutil semantics, the scan loops; tie on every interruption point) --
   except the next-step arithmetic, which is translated; that the real CLIs behave like the concrete pipeline (system stream).
 
